@@ -7,7 +7,7 @@ from .common import last, ref_outcome, check_against_ref, escape_of
 
 ID = "C09"
 BUDGET = {"quick": 1500, "thorough": 60000}
-RULE = ("acyclic sets of ≤ 5 registered templates plus inline partials; every call form: plain, context path / literal, "
+RULE = ("acyclic sets of ≤ 5 registered templates plus inline partials (1..3 definitions of one name, shadowing a registered template or not, each followed by calls: a call renders the latest definition before it); every call form: plain, context path / literal, "
         "hash with path / literal / subexpression values, dynamic name (subexpression), block form with and without the "
         "partial existing, @partial-block used 0..3 times, nested partial blocks ≤ 3 deep; invoked from every scope kind "
         "(top level, each, with, if, inside other partials); oracle = reference renderer (partial = its template on ONE "
@@ -63,6 +63,25 @@ def gen_case(rng, i):
         if ctx_arg is not None and ctx_arg["a"] == "local":
             return None
     main = main + extra
+    if rng.chance(0.35):
+        # inline partials: 1..3 definitions of ONE name (a registered one, which they shadow, or a new one), each followed by
+        # a call – every call renders the latest definition before it
+        r2 = rng.fork("inl")
+        nm = r2.pick(names + ["i0", "i0"])
+        ig = AG(r2.fork("body"), data, [], opt={"missing": 0.1, "sub": True})   # no calls inside: a definition may not include itself
+        seq = []
+        if nm in names and r2.chance(0.5):
+            seq.append({"t": "partial", "name": nm, "ctx": None, "hash": [], "block": None})
+        for j in range(r2.range(1, 3)):
+            ib = [{"t": "text", "s": "<I%d:" % j}] + ig.nodes([ref.Scope(data, "partial")], 1) + [{"t": "text", "s": ">"}]
+            seq.append({"t": "inline", "name": nm, "body": ib})
+            if r2.chance(0.85):
+                seq.append({"t": "partial", "name": nm, "ctx": (ag.arg([ref.Scope(data, "root")]) if r2.chance(0.3) else None), "hash": [], "block": None})
+            if r2.chance(0.3):
+                seq.append({"t": "text", "s": "|"})
+        if any(x.get("ctx") is not None and x["ctx"]["a"] == "local" for x in seq):
+            return None
+        main = main + seq
     asts["main"] = main
     srcs = {}
     for nm, a in asts.items():
@@ -95,6 +114,12 @@ def generate(rng, n, tier="quick"):
     directed("self", [("main", "x{{> main}}")], {}, ("musterr", ["CannotIncludeSelf"]))
     directed("self-after-block", [("main", "{{#if a}}x{{/if}}{{> main}}")], {"a": 1}, ("musterr", ["CannotIncludeSelf"]))
     directed("inline-shadows", [("p", "REG"), ("main", "{{> p}}|{{#*inline \"p\"}}INL{{/inline}}{{> p}}")], {}, ("must", "REG|INL"))
+    directed("inline-redefined", [("main", "{{#*inline \"a\"}}1{{/inline}}{{> a}}{{#*inline \"a\"}}2{{/inline}}{{> a}}{{#*inline \"a\"}}3{{/inline}}{{> a}}")], {}, ("must", "123"))
+    directed("inline-redefined-over-registered", [("p", "REG"), ("main", "{{> p}}{{#*inline \"p\"}}A{{/inline}}{{> p}}{{#*inline \"p\"}}B{{/inline}}{{> p}}")], {}, ("must", "REGAB"))
+    directed("inline-redefined-in-each", [("main", "{{#each xs}}{{#*inline \"a\"}}[{{this}}]{{/inline}}{{> a}}{{/each}}{{#*inline \"a\"}}E{{/inline}}{{> a}}")], {"xs": [1, 2]}, ("must", "[1][2]E"))
+    directed("inline-layout-pages", [("layout", "<h1>{{> title}}</h1>{{> @partial-block}};"), ("page1", "{{#> layout}}{{#*inline \"title\"}}One{{/inline}}first{{/layout}}"),
+                                     ("page2", "{{#> layout}}{{#*inline \"title\"}}Two{{/inline}}second{{/layout}}"), ("main", "{{> page1}}{{> page2}}")], {},
+             ("any", "whether a definition inside the block of a call is in force for the called partial is not stated; model and crate are compared"))
     directed("dynamic", [("p", "P[{{x}}]"), ("main", "{{> (lookup this \"n\") x=1}}")], {"n": "p"}, ("must", "P[1]"))
     directed("twice", [("p", "[{{> @partial-block}}{{> @partial-block}}]"), ("main", "{{#> p}}B{{/p}}")], {}, ("must", "[BB]"))
     directed("thrice-nested", [("p", "<{{> @partial-block}}{{> @partial-block}}{{> @partial-block}}>"), ("main", "{{#> p}}1{{#> p}}2{{/p}}{{/p}}")], {}, ("must", "<1<222>1<222>1<222>>"))
